@@ -58,14 +58,14 @@ package modules
 //@   property C18
 //@   ghost var awaited set[string] = emptyset("")
 //@   loop 0 invariant forall k string :: $visited[k] && startDeps[k] != nil ==> awaited[k]
-//@   loop 0 end awaited := (s != nil && err == nil) ? setadd(awaited, $k) : awaited
+//@   at after@services.Service.AwaitRunning#0: awaited := $r0 == nil ? setadd(awaited, m) : awaited
 //@   at before@services.Service.StartAsync: assert forall k string :: in(k, startDeps) && startDeps[k] != nil ==> awaited[k]
 //@
 //@ func moduleService.waitForModulesToStop
 //@   property C18
 //@   ghost var awaited set[string] = emptyset("")
 //@   loop 0 invariant forall k string :: $visited[k] && stopDeps[k] != nil ==> awaited[k]
-//@   loop 0 end awaited := s != nil ? setadd(awaited, $k) : awaited
+//@   at after@services.Service.AwaitTerminated: awaited := setadd(awaited, n)
 //@   at exit: assert forall k string :: in(k, stopDeps) && stopDeps[k] != nil ==> awaited[k]
 //@
 //@ func moduleService.stop
